@@ -20,12 +20,12 @@ pub fn option_sets(tier: Tier) -> Vec<OptSet> {
 		OptSet::base("L2").levels(2),
 		OptSet::base("L3-tinyblocks-nobloom").levels(3).tiny_blocks().no_bloom(),
 		OptSet::base("L2-vlog8-64").levels(2).with_vlog(8, 64),
+		OptSet::base("L2-versioned").levels(2).versioned(0, false),
 	];
 	if tier == Tier::Thorough {
 		v.extend([
 			OptSet::base("L1").levels(1),
 			OptSet::base("L3-snappy-cache0").levels(3).snappy().cache(0),
-			OptSet::base("L2-versioned").levels(2).versioned(0, false),
 			OptSet::base("L2-versioned-index").levels(2).versioned(0, true),
 			OptSet::base("L2-flush-on-close").levels(2).flush_close(true),
 		]);
@@ -82,6 +82,55 @@ pub fn gen_lists(n: usize, d: usize, out: &mut Vec<Vec<Op>>) {
 	rec(n, d, 0, &mut vec![], out);
 }
 
+pub const GEO_PROBE: [&[u8]; 4] = [b"a", b"b", b"c", b"d"];
+
+/// Three flushes; each flushed table holds one or two writes (set / delete) on keys a<b<c<d, so
+/// that table key ranges nest, overlap, touch and lie apart in every way.
+pub fn geometry_lists() -> Vec<Vec<Op>> {
+	let keys: [&[u8]; 4] = [b"a", b"b", b"c", b"d"];
+	let kinds = [Kind::Set, Kind::Delete];
+	let mut contents: Vec<Vec<(Kind, &[u8])>> = vec![];
+	for k in keys {
+		for kind in kinds {
+			contents.push(vec![(kind, k)]);
+		}
+	}
+	for i in 0..keys.len() {
+		for j in i + 1..keys.len() {
+			for k1 in kinds {
+				for k2 in kinds {
+					contents.push(vec![(k1, keys[i]), (k2, keys[j])]);
+				}
+			}
+		}
+	}
+	let mut out = vec![];
+	for c1 in &contents {
+		for c2 in &contents {
+			for c3 in &contents {
+				for compact_after in 0..4u8 {
+					let mut ops = vec![];
+					let mut wi = 0;
+					for (fi, c) in [c1, c2, c3].into_iter().enumerate() {
+						for (kind, k) in c {
+							ops.push(Op::W(vec![Write::new(*kind, k, &token(wi))]));
+							wi += 1;
+						}
+						ops.push(Op::P(Phys::FlushAll));
+						if fi < 2 && compact_after & (1 << fi) != 0 {
+							ops.push(Op::P(Phys::Compact));
+						}
+					}
+					ops.push(Op::P(Phys::Compact));
+					ops.push(Op::P(Phys::Compact));
+					out.push(ops);
+				}
+			}
+		}
+	}
+	out
+}
+
 fn classify(f: &WorldFailure, _ops: &[Op], _opt: &OptSet) -> String {
 	classify_world_failure(f)
 }
@@ -108,12 +157,32 @@ pub fn check(tier: Tier) -> i32 {
 			samples.push(json!(ops_short(&lists[lists.len() / 2])));
 		}
 		for opt in &opts {
+			// the versioned set joins the quick tier only for the smaller bounds
+			if tier == Tier::Quick && opt.versioning.is_some() && n + d > 4 {
+				continue;
+			}
 			let done = run_world_space(&mut report, &mut stats, opt, &lists, &PROBE, &budget, &classify);
 			if !done {
 				all_complete = false;
 				break 'outer;
 			}
 			completed.push(format!("n={n},d={d},opt={}", opt.name));
+		}
+	}
+	// --- table-geometry family: which tables a compaction picks depends on the key ranges of
+	// the tables in L0 and below; three flushes with every content over four ordered keys ---
+	{
+		let gbudget = Budget::new(if tier == Tier::Quick { 25.0 } else { 400.0 });
+		let lists = geometry_lists();
+		let gopts: Vec<OptSet> = if tier == Tier::Quick { vec![OptSet::base("L2").levels(2)] } else { vec![OptSet::base("L2").levels(2), OptSet::base("L3").levels(3), OptSet::base("L2-l0x2").levels(2).l0_files(2)] };
+		samples.push(json!(ops_short(&lists[lists.len() * 3 / 5])));
+		for opt in &gopts {
+			let done = run_world_space(&mut report, &mut stats, opt, &lists, &GEO_PROBE, &gbudget, &classify);
+			if !done {
+				all_complete = false;
+				break;
+			}
+			completed.push(format!("geometry family: all {} lists (3 flushes x 32 contents over keys a<b<c<d, optional compaction after the 1st and 2nd flush, two compaction rounds at the end), opt={}", lists.len(), opt.name));
 		}
 	}
 	report.set("evaluations", json!(stats.evaluations));
